@@ -165,6 +165,22 @@ CLAIMED = {
             "contract-based deductive verification of the schema emitters (z3, ghost attributes for lxml) + labelled bounded "
             "differential validation against the generated schema",
             "DESIGN.md section 4 C06"),
+    'C12': ("REDUCED CLAIM -- contracts cannot quantify over schedules. Decided on the real code instead: the rely/guarantee "
+            "discipline that makes the schedule irrelevant, as structural obligations on every interpreted path of the "
+            "request pipeline (5 protocol configurations x request kinds x cold/warm): G1 every store or native mutation "
+            "reaching an object shared between requests is made under a lock or fills an empty lazy location; G2 nothing "
+            "reachable from a value published into a shared location outside a lock is mutated afterwards; G3 the value a "
+            "location receives does not depend on the filling request; G4 state mutated under a lock is read outside it only "
+            "where the stored value is immutable; locks are released on every path. Stability under the allowed "
+            "interference (bounded, labelled): cold vs warm instances; the interpreter as scheduler suspends a request "
+            "after each of its shared writes and runs a complete other request (preemption bound 1); a requester preempted "
+            "right before the WSDL build lock while another builds -- one build, same complete bytes for every requester, "
+            "lock released after a failing build.",
+            "not covered: arbitrary interleavings at bytecode granularity, more than one preemption, real parallelism inside "
+            "native code; single dict/list operations assumed atomic (GIL); open known finding: lxml error_log shared",
+            "contract-based verification of a sharing discipline (frame / publication / lock-state rules checked by store, "
+            "load and lock hooks on the interpreted real code) + labelled bounded schedule injection",
+            "DESIGN.md section 4 C12", "other"),
 }
 NOT_YET = {}
 for i in range(1, 19):
@@ -185,11 +201,12 @@ def main():
                                      "with cvc5 as second solver; counter-models replayed on the real code")],
         checks=[], not_applicable=[], notes="exit codes: 0 held, 1 VIOLATION, 2 undecided, 3 checker error")
     for k in sorted(CLAIMED):
-        text, note, tech, ref = CLAIMED[k]
+        text, note, tech, ref = CLAIMED[k][:4]
+        cat = CLAIMED[k][4] if len(CLAIMED[k]) > 4 else 'proof'
         m['checks'].append(dict(
             property_id=k, quick_cmd="bin/check %s --tier quick" % k, thorough_cmd="bin/check %s --tier thorough" % k,
             evidence_file="evidence/%s.json" % k, replay_cmd_template="bin/check --replay {path}", engine="pyvc",
-            level_claimed=dict(category="proof", text=text, design_ref=ref), level_note=note, technique=tech))
+            level_claimed=dict(category=cat, text=text, design_ref=ref), level_note=note, technique=tech))
     for k in sorted(NOT_YET):
         m['not_applicable'].append(dict(property_id=k, reason=NOT_YET[k]))
     json.dump(m, open(os.path.join(ROOT, 'MANIFEST.json'), 'w'), indent=1)
